@@ -10,6 +10,7 @@ use std::{
 
 use itertools::join;
 use num_traits::real::Real;
+use num_traits::ToPrimitive;
 use smallvec::SmallVec;
 
 use crate::{
@@ -50,11 +51,40 @@ impl<R: RealNumberInternalTrait> Display for Number<R> {
     }
 }
 
+fn gcd(a: i128, b: i128) -> i128 {
+    let (mut a, mut b) = (a.abs(), b.abs());
+    while b != 0 {
+        let r = a % b;
+        a = b;
+        b = r;
+    }
+    a
+}
+
 impl<R: RealNumberInternalTrait> Number<R> {
+    /// The exact number n/d (d != 0): in lowest terms, with a positive denominator, an integer when
+    /// d divides n. A value that does not fit the fixed-width representation becomes an inexact real
+    /// (r7rs 6.2.2) instead of overflowing.
+    pub(crate) fn exact_ratio(n: i128, d: i128) -> Self {
+        let divisor = gcd(n, d).max(1);
+        let (mut n, mut d) = (n / divisor, d / divisor);
+        if d < 0 {
+            n = -n;
+            d = -d;
+        }
+        match (n.to_i32(), d.to_i32()) {
+            (Some(n), Some(1)) => Number::Integer(n),
+            (Some(n), Some(d)) => Number::Rational(n, d),
+            _ => Number::Real(R::from(n as f64 / d as f64).unwrap()),
+        }
+    }
+
     pub(crate) fn exact_eqv(&self, other: &Self) -> bool {
         match (self, other) {
             (Number::Integer(a), Number::Integer(b)) => a.eq(b),
-            (Number::Rational(a1, b1), Number::Rational(a2, b2)) => (a1 * b2).eq(&(b1 * a2)),
+            (Number::Rational(a1, b1), Number::Rational(a2, b2)) => {
+                cmp_ratio(*a1, *b1, *a2, *b2) == Ordering::Equal
+            }
             (Number::Real(a), Number::Real(b)) => a.eq(b),
             _ => false,
         }
@@ -66,7 +96,9 @@ impl<R: RealNumberInternalTrait> PartialEq for Number<R> {
     fn eq(&self, other: &Number<R>) -> bool {
         match upcast_oprands((*self, *other)) {
             NumberBinaryOperand::Integer(a, b) => a.eq(&b),
-            NumberBinaryOperand::Rational(a1, a2, b1, b2) => (a1 * b2).eq(&(b1 * a2)),
+            NumberBinaryOperand::Rational(a1, a2, b1, b2) => {
+                cmp_ratio(a1, a2, b1, b2) == Ordering::Equal
+            }
             NumberBinaryOperand::Real(a, b) => a.eq(&b),
         }
     }
@@ -76,9 +108,19 @@ impl<R: RealNumberInternalTrait> PartialOrd for Number<R> {
     fn partial_cmp(&self, other: &Number<R>) -> Option<Ordering> {
         match upcast_oprands((*self, *other)) {
             NumberBinaryOperand::Integer(a, b) => a.partial_cmp(&b),
-            NumberBinaryOperand::Rational(a1, a2, b1, b2) => (a1 * b2).partial_cmp(&(b1 * a2)),
+            NumberBinaryOperand::Rational(a1, a2, b1, b2) => Some(cmp_ratio(a1, a2, b1, b2)),
             NumberBinaryOperand::Real(a, b) => a.partial_cmp(&b),
         }
+    }
+}
+
+// order of a1/a2 and b1/b2 by cross-multiplication, wide enough not to overflow
+fn cmp_ratio(a1: i32, a2: i32, b1: i32, b2: i32) -> Ordering {
+    let (left, right) = (a1 as i64 * b2 as i64, b1 as i64 * a2 as i64);
+    if (a2 < 0) != (b2 < 0) {
+        right.cmp(&left)
+    } else {
+        left.cmp(&right)
     }
 }
 
@@ -120,7 +162,9 @@ impl<R: RealNumberInternalTrait> NumberBinaryOperand<R> {
         match self {
             NumberBinaryOperand::Integer(a, _) => Number::Integer(*a),
             NumberBinaryOperand::Real(a, _) => Number::Real(*a),
-            NumberBinaryOperand::Rational(a1, a2, _, _) => Number::Rational(*a1, *a2),
+            NumberBinaryOperand::Rational(a1, a2, _, _) => {
+                Number::exact_ratio(*a1 as i128, *a2 as i128)
+            }
         }
     }
 
@@ -128,7 +172,9 @@ impl<R: RealNumberInternalTrait> NumberBinaryOperand<R> {
         match self {
             NumberBinaryOperand::Integer(_, b) => Number::Integer(*b),
             NumberBinaryOperand::Real(_, b) => Number::Real(*b),
-            NumberBinaryOperand::Rational(_, _, b1, b2) => Number::Rational(*b1, *b2),
+            NumberBinaryOperand::Rational(_, _, b1, b2) => {
+                Number::exact_ratio(*b1 as i128, *b2 as i128)
+            }
         }
     }
 }
@@ -137,10 +183,11 @@ impl<R: RealNumberInternalTrait> std::ops::Add<Number<R>> for Number<R> {
     type Output = Number<R>;
     fn add(self, rhs: Number<R>) -> Number<R> {
         match upcast_oprands((self, rhs)) {
-            NumberBinaryOperand::Integer(a, b) => Number::Integer(a + b),
+            NumberBinaryOperand::Integer(a, b) => Number::exact_ratio(a as i128 + b as i128, 1),
             NumberBinaryOperand::Real(a, b) => Number::Real(a + b),
             NumberBinaryOperand::Rational(a1, a2, b1, b2) => {
-                Number::Rational(a1 * b2 + a2 * b1, a2 * b2)
+                let (a1, a2, b1, b2) = (a1 as i128, a2 as i128, b1 as i128, b2 as i128);
+                Number::exact_ratio(a1 * b2 + a2 * b1, a2 * b2)
             }
         }
     }
@@ -150,10 +197,11 @@ impl<R: RealNumberInternalTrait> std::ops::Sub<Number<R>> for Number<R> {
     type Output = Number<R>;
     fn sub(self, rhs: Number<R>) -> Number<R> {
         match upcast_oprands((self, rhs)) {
-            NumberBinaryOperand::Integer(a, b) => Number::Integer(a - b),
+            NumberBinaryOperand::Integer(a, b) => Number::exact_ratio(a as i128 - b as i128, 1),
             NumberBinaryOperand::Real(a, b) => Number::Real(a - b),
             NumberBinaryOperand::Rational(a1, a2, b1, b2) => {
-                Number::Rational(a1 * b2 - a2 * b1, a2 * b2)
+                let (a1, a2, b1, b2) = (a1 as i128, a2 as i128, b1 as i128, b2 as i128);
+                Number::exact_ratio(a1 * b2 - a2 * b1, a2 * b2)
             }
         }
     }
@@ -163,9 +211,11 @@ impl<R: RealNumberInternalTrait> std::ops::Mul<Number<R>> for Number<R> {
     type Output = Number<R>;
     fn mul(self, rhs: Number<R>) -> Number<R> {
         match upcast_oprands((self, rhs)) {
-            NumberBinaryOperand::Integer(a, b) => Number::Integer(a * b),
+            NumberBinaryOperand::Integer(a, b) => Number::exact_ratio(a as i128 * b as i128, 1),
             NumberBinaryOperand::Real(a, b) => Number::Real(a * b),
-            NumberBinaryOperand::Rational(a1, a2, b1, b2) => Number::Rational(a1 * b1, a2 * b2),
+            NumberBinaryOperand::Rational(a1, a2, b1, b2) => {
+                Number::exact_ratio(a1 as i128 * b1 as i128, a2 as i128 * b2 as i128)
+            }
         }
     }
 }
@@ -176,17 +226,17 @@ impl<R: RealNumberInternalTrait> std::ops::Div<Number<R>> for Number<R> {
         match upcast_oprands((self, rhs)) {
             NumberBinaryOperand::Integer(a, b) => {
                 check_division_by_zero(b)?;
-                match a % b {
-                    0 => Ok(Number::Integer(a / b)),
-                    _ => Ok(Number::Rational(a, b)),
-                }
+                Ok(Number::exact_ratio(a as i128, b as i128))
             }
             NumberBinaryOperand::Real(a, b) => Ok(Number::Real(a / b)),
             NumberBinaryOperand::Rational(a1, a2, b1, b2) => {
                 check_division_by_zero(b1)?;
                 check_division_by_zero(a2)?;
                 check_division_by_zero(b2)?;
-                Ok(Number::Rational(a1 * b2, a2 * b1))
+                Ok(Number::exact_ratio(
+                    a1 as i128 * b2 as i128,
+                    a2 as i128 * b1 as i128,
+                ))
             }
         }
     }
@@ -195,9 +245,9 @@ impl<R: RealNumberInternalTrait> std::ops::Div<Number<R>> for Number<R> {
 impl<R: RealNumberInternalTrait> Number<R> {
     pub fn abs(self) -> Number<R> {
         match self {
-            Number::Integer(num) => Number::Integer(num.abs()),
+            Number::Integer(num) => Number::exact_ratio((num as i128).abs(), 1),
             Number::Real(num) => Number::Real(num.abs()),
-            Number::Rational(a, b) => Number::Rational(a.abs(), b.abs()),
+            Number::Rational(a, b) => Number::exact_ratio((a as i128).abs(), (b as i128).abs()),
         }
     }
 
